@@ -6,6 +6,8 @@ cd /verif
 chmod +x bin/*.sh bin/vfcheck 2>/dev/null
 mkdir -p build evidence replays
 bin/build.sh || exit 2
+# the race-enabled binary of the race-detector phase (first build compiles an instrumented standard library)
+VF_RACE=1 bin/build.sh build/sftp.verif.race.test || echo "note: race-enabled build failed; the race-detector phase will be skipped"
 export GOFLAGS=-mod=mod GOPROXY=off GOSUMDB=off GOTOOLCHAIN=local
 (cd /repo && go1.26.8 test -tags verif -vet=off -count=1 . > /verif/build/tagged-suite.log 2>&1) || { echo "repository tests fail with -tags verif"; tail -20 /verif/build/tagged-suite.log; exit 2; }
 echo "setup ok"
